@@ -493,16 +493,28 @@ func c09search(c *Ctx) {
 				}
 				return true, ""
 			}
-			if p.Abs(p.Results[0]).K == px.True {
-				ok := false
-				for _, e := range p.All(px.KindIs(px.EvStore)) {
-					if _, n, isF := e.Addr.FieldAddrOf(); isF && n == "Item" && px.IsFieldLoad(e.Val, "item", nil) {
-						ok = true
-					}
+			// no child was visited: this is only allowed for the exhausted route at a node that carries an item
+			if p.Abs(p.Results[0]).K != px.True {
+				return false, "the search gives up without visiting the node's children: an exhausted route at a node without an item must still try the children with the empty segment (a `/:id` route matches `/` with id=\"\")"
+			}
+			ok := false
+			for _, e := range p.All(px.KindIs(px.EvStore)) {
+				if _, n, isF := e.Addr.FieldAddrOf(); isF && n == "Item" && px.IsFieldLoad(e.Val, "item", nil) {
+					ok = true
 				}
-				if !ok {
-					return false, "true without recording the node's item"
+			}
+			if !ok {
+				return false, "true without recording the node's item"
+			}
+			itemSeen := false
+			for _, b := range p.All(px.KindIs(px.EvBranch)) {
+				cnd := b.Cond.Strip(true)
+				if cnd.Kind == px.KBinOp && px.IsNilConst(cnd.Y) && px.IsFieldLoad(cnd.X, "item", nil) && (cnd.Op == token.NEQ) == b.Taken {
+					itemSeen = true
 				}
+			}
+			if !itemSeen {
+				return false, "a node is reported as the match without having established that it carries an item"
 			}
 			return true, ""
 		})
